@@ -216,12 +216,20 @@ model of the `ValueError` of `np.concatenate` in `_concat` (merge.py:30, called 
 "all the input array dimensions except for the concatenation axis must match exactly"), after every other file has been
 written; by `inputs_untouched` nothing outside the output directory has changed. With `merge_returns_iff`: `sameWidth`
 of both families is part of `InDomain`, i.e. NECESSARY for the merge to return. (The real code refuses these probes
-although the property quantifies over any channel and template counts: open known finding of C12.) -/
+although the property quantifies over any channel and template counts: open known finding of C12.)
+`hne`: EVERY PROBE'S TABLE HAS A ROW.  A `.table` of the model is a list of rows and cannot carry the width of a table
+WITHOUT rows: `sameWidth` reads an empty FIRST table as width 0 (`sameWidth [[], [[0,1]]] = false`, but
+`sameWidth [[[0,1]], []] = true`), whereas the real `np.concatenate([zeros((0,2)), zeros((1,2))])` succeeds in either
+order.  On a probe with an empty index table (a probe without templates — outside the property's quantifier, which has
+every probe sorted into at least one template) the model's verdict may therefore differ from the code's and depends on
+the probe order; the theorem claims the raise only where every table has a row, where `sameWidth` is exactly the
+condition of `np.concatenate` (all rows of all tables equally long). -/
 theorem merge_raises_of_ragged_tables (fs : FS) (subdirs : List String) (out : String) (hout : out ∉ subdirs)
     (name : String) (hname : name = "pc_feature_ind.npy" ∨ name = "template_feature_ind.npy")
     (tables : List (List (List Nat))) (hl : loadEach (readTable fs name) subdirs = .ok tables)
+    (hne : ∀ t ∈ tables, t ≠ [])
     (hr : sameWidth tables = false) : (merge fs subdirs out).2 ≠ none :=
-  Lemmas.merge_raises_of_ragged_tables fs subdirs out hout name hname tables hl hr
+  Lemmas.merge_raises_of_ragged_tables fs subdirs out hout name hname tables hl hne hr
 
 /-- A probe without spikes (or with exactly one) makes the merge raise — the model of the `ValueError`s of
 `np.max` (merge.py:147) and of `np.concatenate` on a squeezed one-element array (merge.py:30) — and by
@@ -239,7 +247,12 @@ raises the same exception as `Merger(subdirs, out).merge()` of a new object on t
 merge retried on the same object after the input was repaired satisfies every other theorem of C11 / C12
 (`merge_ok_contents`, `inputs_untouched`, …) as the first merge of a new object does. No hypothesis on `reg0`,
 `fs`, `subdirs`, `out`. (The proof uses that `write_spike_clusters` and `write_channel_data` re-create their lists,
-merge.py:140-142, 199-203: `Lemmas.cSpikeClusters_sim`, `Lemmas.cChannelData_sim`.) -/
+merge.py:140-142, 199-203: `Lemmas.cSpikeClusters_sim`, `Lemmas.cChannelData_sim`.)
+WHAT THIS RESTS ON.  The statement is true because every step of the MODEL that uses a register first replaces it
+(`merge = mergeFrom {}` is `rfl`): it is a faithful reading of merge.py:144-146, 203-207, and says no more than that
+reading.  That the REAL `Merger` object behaves so on its second `merge()` is not proved here; it is what the
+correspondence run of the harness checks (driver op `mergeRetry`: a real `Merger` whose first `merge()` raised is called
+again after the input was repaired, and its output is compared file by file with the model's). -/
 theorem merge_again_as_fresh (reg0 : Reg) (fs : FS) (subdirs : List String) (out : String) :
     (mergeFrom reg0 fs subdirs out).1.1 = (merge fs subdirs out).1.1 ∧
     (mergeFrom reg0 fs subdirs out).2 = (merge fs subdirs out).2 :=
@@ -280,7 +293,9 @@ example : (mergeFrom { order := [9, 9], clusters := [[5], [5], [5]], templateOff
 -- index tables of different widths: `ValueError` of `np.concatenate`, after templates.npy was written
 example : (merge (exampleFS.write ("b", "pc_feature_ind.npy") (.table [[0]])) ["a", "b"] "out").2 = some (.ragged "pc_feature_ind.npy") ∧
     ((merge (exampleFS.write ("b", "pc_feature_ind.npy") (.table [[0]])) ["a", "b"] "out").1.1.read ("out", "templates.npy")).isSome ∧
-    sameWidth [[[0, 1]], [[0]]] = false := by decide +kernel
+    sameWidth [[[0, 1]], [[0]]] = false ∧ (∀ t ∈ [[[0, 1]], [[0]]], t ≠ ([] : List (List Nat))) := by decide +kernel
+-- why `hne`: a table without rows has no width in the model; the verdict of `sameWidth` then depends on the probe order
+example : sameWidth [[], [[0, 1]]] = false ∧ sameWidth [[[0, 1]], []] = true := by decide +kernel
 -- a spike-less probe: `ValueError` of `np.max`
 example : (merge (exampleProbe "a" [3, 5] [] ++ [(("b", "params.py"), .params 30000 2), (("b", "spike_times.npy"), .ints []),
       (("b", "amplitudes.npy"), .ints []), (("b", "spike_templates.npy"), .nats []), (("b", "spike_clusters.npy"), .nats [])])
